@@ -54,3 +54,17 @@ impl Cursor {
         self.tag = op.tag();
     }
 }
+
+#[derive(Clone, Copy, Debug, PartialEq, Eq)]
+pub enum ChangeTag {
+    Equal,
+    Delete,
+    Insert,
+}
+
+pub struct Change<T> {
+    pub tag: ChangeTag,
+    pub old_index: Option<usize>,
+    pub new_index: Option<usize>,
+    pub value: T,
+}
